@@ -2,6 +2,12 @@
 DEFERRED = "rules for this property are not armed yet (build order: DESIGN.md Appendix D); not claimed until a self-tested rule exists"
 
 CLAIMS = {
+    "C01": {
+        "level": "other",
+        "text": "Mechanism clauses that make reassembly independent of chunking, decided symbolically: single transport read site and window-field ownership; the receive-window invariant start + remaining = len(bytes) established on entry and re-established around the read loop (inductive check with a Vec length model and a ghost `consumed prefix` counter: parser gets bytes[start..], remaining := len(rest), drain removes exactly the consumed prefix, the transport reads into bytes[old_len..], len := end + n); short buffers (parser Incomplete/Error) lead to another read, only Failure is an error; framing constants of the two packet parsers as affine cursor offsets (u24 length @0, sequence @3, payload @4 of exactly that length / ffffff + 0xFFFFFF bytes) and in-order appends of fragments. Byte-for-byte equality through nom's combinators is not decided (trusted library).",
+        "note": "Trusted: nom combinators return a suffix of their input; Read contract; Vec semantics.",
+        "technique": "symbolic (affine) evaluation of buffer bookkeeping along enumerated loop paths with an inductive invariant check; cursor-offset analysis",
+    },
     "C15": {
         "level": "proof",
         "text": "Exhaustive path-sensitive interval analysis of all 10 integer encoders x 6 integer column types x 2 signednesses plus the generic Int/UInt arms: on every writing path the written width equals the wire width, the accepted interval (from the path's comparisons / TryFrom results, constants folded with wrapping semantics) is included in every intermediate type and in the client's read type (so the decoded number equals the source for all accepted values; a concrete counterexample is produced otherwise), whole fixed-width ranges are accepted whenever the column can hold them, usize/isize accept exactly range(T) ∩ range(column), and non-writing paths return Err or diverge. All obligations discharge on the repaired tree (two defects found and fixed: sign-extension of negatives into unsigned columns; always-refused usize/isize).",
